@@ -425,6 +425,8 @@ def _quality_list(it):
     """np.array([QUALITIES[name] for name in [...]]) -> list of names"""
     if it.op == "call" and call_name(it) == "np.array":
         it = it.a[1][0]
+    if it.op == "list" and it.a and all(x.op == "sub" and x.a[0].op == "glob" and x.a[0].a[0] == "chord.QUALITIES" and x.a[1].op == "const" and isinstance(x.a[1].a[0], str) for x in it.a):
+        return [x.a[1].a[0] for x in it.a]  # the comprehension over a literal list of names, unrolled
     if it.op == "comp" and len(it.a[2]) == 1 and it.a[2][0].op == "list":
         elt = it.a[1]
         if elt.op == "sub" and elt.a[0].op == "glob" and elt.a[0].a[0] == "chord.QUALITIES" and elt.a[1].op == "iter":
